@@ -205,6 +205,28 @@ void explore14(Options const& o, std::vector<Shim*> const& shims, std::vector<Sh
     run(P, P, ob);
     run(W, Ps, ob | (1ull << 52));
     run(Ps, W, ob | (2ull << 52));
+    // carry-boundary pairs: 16-bit leading parts m1, m2 with m1 + m2 just above 2^16 (the sum of the operands crosses a power of
+    // two), tails all ones or all zeros, at every magnitude: the inputs on which a clz-based choice of the scaling shift changes
+    {
+    int step = th ? 1 : 5;
+    std::mutex m; u64 tot = 0;
+    parallel_blocks(31, o.threads, [&](size_t sh, int) {
+      LocalViol lv(rec); u64 n = 0;
+      for( i64 m1 = 1 << 15; m1 < (1 << 16); m1 += step ) for( i64 dl = 0; dl <= 6; dl += 2 ) for( int tail = 0; tail < 2; ++tail )
+        {
+        i64 m2 = (1 << 16) - m1 + dl; if( m2 <= 0 ) continue;
+        i64 a = (m1 << sh) - tail, b = (m2 << sh) - tail;
+        if( a >= LIM47 || b >= LIM47 || a <= 0 || b <= 0 ) continue;
+        i64 h = s->fm_bin(B_HYPOT, a, b), h2 = s->fm_bin(B_HYPOT, b, a);
+        u64 ord = ob | (3ull << 52) | (static_cast<u64>(sh) << 40) | static_cast<u64>((m1 << 3) | (dl << 1) | tail);
+        c.val(s, a, b, h, ord, lv);
+        if( h != h2 ) lv.hit(c.c_sym, ord, [=]{ return ex1(s, "hypot(a,b) == hypot(b,a)", "", {{"a",to_s(a)},{"b",to_s(b)}}, to_s(h), to_s(h2), "sym", {to_s(a), to_s(b)}); });
+        n += 2;
+        }
+      std::lock_guard<std::mutex> g(m); tot += n;
+      });
+    rec.add_states(tot, tot, tot); rec.count("carry_boundary_pairs", tot);
+    }
     }
   rec.sample("hypot(raw 3*65536, raw 4*65536) = " + to_s(shims[0]->fm_bin(B_HYPOT, 3 * 65536, 4 * 65536)) + "; hypot(raw 1073741000, raw 65000) = " + to_s(shims[0]->fm_bin(B_HYPOT, 1073741000, 65000)));
   }
